@@ -48,6 +48,14 @@ def sample_of(job, k=0):
     return {"cfg": job.cfg, "header": h, "commands": cmds[:25], "first_events": ev}
 
 
+# guards of another property that a check reports as its own: a LIFO block source that reports a valid return of a
+# block as an invalid pointer (C16/ValidReleaseNeverReported) did not get "each block back unchanged" from its own
+# point of view, which is what C05 is about
+# ... and a moved / swapped allocator that then hands out memory it does not own, overlaps live memory or runs over
+# its fixed storage (C01, C03 guards) did not "transfer all its memory" (C12)
+ALSO_RULES_OF = {"C05": ("C16",), "C12": ("C01", "C03")}
+
+
 def run_trace_property(prop, tier, seed, jobs, model_runs=(), assumptions=None, rule=None):
     """Generic check: run the jobs (driver + TLC trace validation against a contract), run the
     design-model checks of the property, attribute violations, confirm, write evidence."""
@@ -55,7 +63,7 @@ def run_trace_property(prop, tier, seed, jobs, model_runs=(), assumptions=None, 
     from . import models
     mres = models.run_models(model_runs, tier)
     engine.run_jobs(jobs, prop)
-    violations, known, others, infra = engine.attribute(jobs, prop)
+    violations, known, others, infra = engine.attribute(jobs, prop, also=("ANY",) + ALSO_RULES_OF.get(prop, ()))
     if infra:
         for r in infra[:5]:
             log("[infra] %s" % json.dumps(r["v"]))
